@@ -329,20 +329,58 @@ func worker(id int, cfg *Config, sh *shared, entry *ssa.Function) {
 				sh.mu.Unlock()
 			}
 		}()
+		// callees of a summarised function are summarised on demand (helpers a refactoring may introduce);
+		// a function that cannot be summarised is simply interpreted
+		inProgress := map[*ssa.Function]bool{}
+		var lookup func(f *ssa.Function) *FuncDef
+		try := func(f *ssa.Function) (fd *FuncDef) {
+			defer func() {
+				if r := recover(); r != nil {
+					fd = nil
+				}
+			}()
+			return buildSummary(pool, f, lookup)
+		}
+		lookup = func(f *ssa.Function) *FuncDef {
+			if fd, ok := summ[f]; ok {
+				return fd
+			}
+			if inProgress[f] || f.Blocks == nil {
+				return nil
+			}
+			inProgress[f] = true
+			fd := try(f)
+			delete(inProgress, f)
+			if fd != nil {
+				summ[f] = fd
+				sinfo = append(sinfo, SummaryInfo{Func: f.String() + " (callee, summarised on demand)", Blocks: len(f.Blocks), TermNodes: fd.body.Size()})
+			}
+			return fd
+		}
 		for _, q := range cfg.Summaries {
 			fn := cfg.lookupFunc(q)
 			if fn == nil {
 				panic("summary function not found: " + q)
 			}
-			fd := buildSummary(pool, fn, func(f *ssa.Function) *FuncDef { return summ[f] })
+			fd := try(fn)
+			if fd == nil {
+				sinfo = append(sinfo, SummaryInfo{Func: q + " (not summarisable: interpreted)", Blocks: len(fn.Blocks)})
+				continue
+			}
 			summ[fn] = fd
 			sinfo = append(sinfo, SummaryInfo{Func: q, Blocks: len(fn.Blocks), TermNodes: fd.body.Size()})
 		}
 	}()
 	if id == 0 {
-		for i, q := range cfg.Summaries {
+		for _, q := range cfg.Summaries {
 			fn := cfg.lookupFunc(q)
-			if fn != nil && summ[fn] != nil {
+			i := -1
+			for k := range sinfo {
+				if sinfo[k].Func == q {
+					i = k
+				}
+			}
+			if fn != nil && summ[fn] != nil && i >= 0 {
 				n, bad := validateSummary(cfg, pool, solver, fn, summ[fn], cfg.Validate)
 				sinfo[i].Validated = n
 				if bad != "" {
